@@ -175,6 +175,25 @@ func (x *runner) step(op opSpec, faults bool) []finding {
 		}
 		return kept
 	}
+	if op.Mod != nil && op.Mod.Again {
+		// "SetRule(r), edit r, SetRule(r)": since Server.SetReplicationConfig rolls back with a fresh
+		// object no caller inside pd edits an object after handing it to SetRule, so at this level
+		// it is a history the program cannot have: counted. The caller itself is covered by the
+		// server-level family (server.go).
+		var kept []finding
+		for _, f := range fs {
+			aliasing := false
+			for _, p := range []string{"unsuccessful-update-changed:", "reload-differs-from-served:", "reload-fails:", "retry-does-not-converge:", "served-differs-from-model:", "second-restart-"} {
+				aliasing = aliasing || strings.HasPrefix(f.Key, p)
+			}
+			if aliasing {
+				x.count("object_passed_to_SetRule_stays_served_object", 1)
+			} else {
+				kept = append(kept, f)
+			}
+		}
+		return kept
+	}
 	return fs
 }
 
@@ -516,8 +535,7 @@ func reproduce(cand []opSpec, key string, faults bool) *finding {
 }
 
 // shrinkOp proposes smaller variants of a multi-part update.
-func shrinkOp(op opSpec) []opSpec {
-	var out []opSpec
+func bigOp(op opSpec) bool {
 	big := len(op.Rules) + len(op.Batch)
 	for _, b := range op.Bundles {
 		big += len(b.Rules)
@@ -525,8 +543,13 @@ func shrinkOp(op opSpec) []opSpec {
 	if op.Bundle != nil {
 		big += len(op.Bundle.Rules)
 	}
-	if big > 40 {
-		return nil // populated-world updates are not reduced element by element
+	return big > 40
+}
+
+func shrinkOp(op opSpec) []opSpec {
+	var out []opSpec
+	if bigOp(op) {
+		return nil
 	}
 	switch op.Kind {
 	case kSetRules:
@@ -579,6 +602,11 @@ var minimizeBudgetRun = 1500
 
 func minimize(h []opSpec, key string, faults bool) []opSpec {
 	cur := append([]opSpec(nil), h...)
+	for _, op := range h {
+		if bigOp(op) {
+			return cur // populated-world histories are kept as recorded
+		}
+	}
 	budget := 200
 	inner := reproduces
 	reproduces := func(c []opSpec, key string, faults bool) bool {
@@ -884,11 +912,11 @@ func main() {
 		}
 	}
 	initProbes(r.Thorough()) // thorough: every pair of probe keys as a range
-	r.Rule("random histories of 25 updates (SetRule, DeleteRule, SetRules, Batch add/del/del-by-prefix, SetRuleGroup, DeleteRuleGroup, SetGroupBundle, SetAllGroupBundles override t/f, DeleteGroupBundle plain/regexp, get-modify-set) over 4 groups x 6 rule ids, key ranges over a 10-point hex alphabet (nested, adjacent, unbounded, byte-prefix keys), rule index/override, group index/override, ~4% malformed rules; each update is judged on 24 probe keys and ~" + fmt.Sprint(len(probeRanges)) + " probe ranges, then re-run on a replayed clone once per storage write and fault mode (fail-before / lost-ack) with that write failing, then retried. distinct = configured state before x update (x failed write x mode). Two-writer phase: pairs of updates (biased to pairs that are each valid alone but invalid together, and to independent SetRules on different keys) run concurrently under the gate scheduler, every storage write parks, release orders enumerated depth-first for both start orders; judged by serial equivalence with the model (A;B or B;A) and reload; distinct = base state x pair x start order x released write sequence")
+	r.Rule("random histories of 25 updates (SetRule, DeleteRule, SetRules, Batch add/del/del-by-prefix, SetRuleGroup, DeleteRuleGroup, SetGroupBundle, SetAllGroupBundles override t/f, DeleteGroupBundle plain/regexp, get-modify-set) over 4 groups x 6 rule ids, key ranges over a 10-point hex alphabet (nested, adjacent, unbounded, byte-prefix keys), rule index/override, group index/override, ~4% malformed rules; each update is judged on 24 probe keys and ~" + fmt.Sprint(len(probeRanges)) + " probe ranges, then re-run on a replayed clone once per storage write and fault mode (fail-before / lost-ack) with that write failing, then retried. distinct = configured state before x update (x failed write x mode). Two-writer phase: pairs of updates (biased to pairs that are each valid alone but invalid together, and to independent SetRules on different keys) run concurrently under the gate scheduler, every storage write parks, release orders enumerated depth-first for both start orders; judged by serial equivalence with the model (A;B or B;A) and reload, incl. the complete matrix of the 9 update entry points and a storage fault at each write of the race + retry; distinct = base state x pair x start order x released write sequence x fault. Further families: gated writer vs reader and writer vs Initialize of a second manager on the same storage (distinct = base x update x start order x release order), free-running writers+readers, a populated world (>1000 rules, prefix-related ids, page-size faults), a real server's SetReplicationConfig with faults on the config / rule write (distinct = old config x new config x fault)")
 	r.Assume("reference model (model.go) written from the statement and the documented meaning of the fields/calls; override ties (equal index) and other undocumented corners are not judged (counted as skipped)")
 	r.Assume("a restarted PD = a fresh RuleManager.Initialize on a copy of the storage content; storage = core.Storage over an instrumented in-memory kv.Base; only writes (Save/Remove) are failed")
 	r.Assume("the order in which one update issues its storage writes is Go map order (savePatch), so which write is the k-th varies between runs; all k are enumerated")
-	r.Assume("get-edit-set is judged for GetRule (its in-tree caller server.SetReplicationConfig edits the returned rule and sets it, and on a failed Persist edits the same object again and sets it again); objects from the other getters are never edited by any caller inside pd, so aliasing seen through them is counted as getter_returns_served_object:<getter>, not judged")
+	r.Assume("get-edit-set is judged for GetRule (its in-tree caller server.SetReplicationConfig edits the returned rule and sets it) and, at the server level, for SetReplicationConfig itself including its roll-back; objects from the other getters, and objects already handed to SetRule, are never edited by any caller inside pd, so aliasing seen through them is counted (getter_returns_served_object:<getter>, object_passed_to_SetRule_stays_served_object), not judged")
 	r.Assume("one-directional clauses: model-valid updates that pd rejects, and accepted malformed rules, are counted, not judged; reload after 'failed update, then a different update' is evidence only")
 	rng := rand.New(rand.NewSource(r.ShardSeed()))
 	rp := &reporter{r: r, reported: map[string]bool{}}
@@ -913,6 +941,9 @@ func main() {
 	phase("free-writers", func() { runFreeWriters(r, rng) })
 	if !r.Thorough() || r.Shard%4 == 0 {
 		phase("scale", func() { runScale(r, rp, rng) })
+	}
+	if !r.Thorough() || r.Shard%4 == 1 {
+		phase("server", func() { runServer(r, rng) })
 	}
 	r.Set("phase_seconds", fmt.Sprint(phaseSec))
 	r.Set("probe_keys_per_observation", fmt.Sprint(len(probeKeys))) // strings: the driver sums numeric extras over shards
